@@ -15,4 +15,12 @@
 /* ghost indices: havoc'd once per proof by the harness, never written by extracted code */
 extern size_t g_k;
 extern size_t g_j;
+/* ghost character positions, relative to the start of the underlying object (so that sub-views of one
+ * header buffer all speak about the same byte) */
+extern size_t g_off;
+extern size_t g_off2;
+#define POFF(p) ((size_t)__CPROVER_POINTER_OFFSET(p))
+#define SV_COVERS(s, o) (POFF((s).data_) <= (o) && (o) < POFF((s).data_) + (s).length_)
+#define PTR_OBJ_AT(p, o) (*((p) - POFF(p) + (o)))
+#define SV_OBJ_AT(s, o) PTR_OBJ_AT((s).data_, o)
 #endif
